@@ -6,7 +6,7 @@ import random
 
 from .. import core, gen, sx
 
-THEOREMS = ['C12.python_pattern_operations_are_the_model', 'C12.peq_is_expansion_equality', 'C12.peq_refl', 'C12.peq_symm', 'C12.peq_trans',
+THEOREMS = ['C12.python_pattern_operations_are_the_model', 'C12.peq_is_expansion_equality', 'C12.nary_transparent', 'C12.nary_head_and_rebuild', 'C12.peq_refl', 'C12.peq_symm', 'C12.peq_trans',
             'C12.evar_is_free_transparent', 'C12.metavars_transparent', 'C12.instantiate_transparent',
             'C12.esubst_transparent', 'C12.ssubst_transparent', 'C12.simplify_transparent', 'C12.instantiate_compose']
 
@@ -87,13 +87,31 @@ def run(rep):
             lawlines.append(f'law-transparent {l[1]} {sx.pat_to_s(l[2])} {gen.delta_to_s(l[3])} {sx.pat_to_s(l[4])}')
     lw = core.py_h(lawlines)
     bad = [{'request': l, 'python': a} for l, a in zip(lawlines, lw) if a != 'true']
+    # ---- the n-ary destructor `deconstruct_nary_application` (proofs/kore.py): model `NPat.naryF` vs the real function, and the
+    # transparency law on the real code (destructure-then-expand = expand-then-destructure), incl. notations whose
+    # function position is a metavariable bound to an application
+    from .. import try_nary as tn
+    nots_n = tn.nary_shipped()
+    npats = [gen.gen_npat(rng, rng.choice((1, 2, 3))) for _ in range(150 if quick else 3000)]
+    npats += [tn.spine(rng, rng.choice((1, 2, 3, 4)), nots_n) for _ in range(300 if quick else 6000)]
+    for label, arity, body in nots_n:
+        for _ in range(2 if quick else 10):
+            npats.append(('inst', body, tuple(enumerate(tn.spine(rng, rng.choice((0, 1, 2)), nots_n) for _ in range(arity)))))
+    nlines = ['nary ' + sx.pat_to_s(p) for p in npats]
+    nlaws = ['law-nary-transparent ' + sx.pat_to_s(p) for p in npats]
+    nla, npa, nlw = core.lean_drv(nlines), core.py_h(nlines), core.py_h(nlaws)
+    dis += [{'request': l, 'model': a, 'python': b} for l, a, b in zip(nlines, nla, npa) if a != b and a != 'fuel']
+    bad += [{'request': l, 'python': a} for l, a in zip(nlaws, nlw) if a != 'true']
+    plines = plines + nlines
+    lawlines = lawlines + nlaws
     total = len(plines) + len(lawlines)
     rep.coverage.update({
         'evaluations': total, 'distinct_nontrivial': len(set(plines)) + len(set(lawlines)),
         'rule': 'pairs (p, random q) / (p, full expansion of p) with nested, partial and shipped notation to depth 4; peq compared '
                 'model vs real ==; law requests evaluated on the REAL code: == coincides with equality of full expansions '
                 '(incl. reflexivity, symmetry, !=) and every operation (evar_is_free, metavars, apply_esubst, apply_ssubst, '
-                'instantiate, unwrap, deconstruct, match_single both ways) agrees on p and expand(p)',
+                'instantiate, unwrap, deconstruct, match_single both ways) agrees on p and expand(p); deconstruct_nary_application: model vs real and '
+                'the transparency law on spines through notation (metavariable heads bound to applications, partial maps, shipped n-ary notations)',
         'programs': total, 'disagreements_checked': len(dis) + len(bad),
         'true_answers': sum(1 for a in pa if a == 'true'), 'false_answers': sum(1 for a in pa if a == 'false'),
         'samples': [plines[0], plines[-1], lawlines[0], lawlines[1]],
